@@ -51,7 +51,7 @@ def parse_M(o):
     body = m.group(1).strip()
     if body == "[]":
         return True, []
-    pairs = re.findall(r"\((\d+)(?:%nat)?,\s*(\d+)(?:%nat)?\)", body)
+    pairs = re.findall(r"\(\s*(\d+)(?:%nat)?\s*,\s*(\d+)(?:%nat)?\s*\)", body)
     return bool(pairs), [(int(a), int(b)) for a, b in pairs]
 
 
